@@ -28,9 +28,10 @@ type bodyDump struct {
 }
 
 type progDump struct {
-	ID     int        `json:"id"`
-	Consts []string   `json:"consts"`
-	Bodies []bodyDump `json:"bodies"`
+	ID     int               `json:"id"`
+	Consts []string          `json:"consts"`
+	CVals  []json.RawMessage `json:"cvals"` // the constants as values (Trace_VM follows integers, strings, booleans, null)
+	Bodies []bodyDump        `json:"bodies"`
 	script string
 	mode   string
 }
@@ -77,7 +78,7 @@ func dumpPrepared(script string, optimize bool) (*progDump, error) {
 		return nil, err
 	}
 	m := e.VerifMachine()
-	d := &progDump{script: script, Consts: []string{}}
+	d := &progDump{script: script, Consts: []string{}, CVals: []json.RawMessage{}}
 	if optimize {
 		d.mode = "opt"
 	} else {
@@ -85,6 +86,7 @@ func dumpPrepared(script string, optimize bool) (*progDump, error) {
 	}
 	for _, c := range m.VerifConstants() {
 		d.Consts = append(d.Consts, constKind(c))
+		d.CVals = append(d.CVals, encodeObject(c, 0))
 	}
 	d.Bodies = append(d.Bodies, bodyDump{Name: "main", IsFn: false, Code: bytesToInts(m.VerifBytecode())})
 	fns := m.VerifFunctions()
@@ -412,6 +414,8 @@ func checkC18(c *Check) {
 		mods = strings.Split(m, ",")
 	}
 	scripts := corpusScripts(c, mods, every)
+	// the witnesses of the recorded finding "a value-less construct used as an operand"
+	scripts = append(scripts, `x = y++; return x;`, `t(a = 1); return 2;`, `r = 1 + if ( true ) { } ; return r;`)
 	if os.Getenv("VERIF_C18_NOSIZE") == "" {
 		scripts = append(scripts, sizeFamily(c.Tier)...)
 	}
